@@ -117,6 +117,45 @@ type BrokerConn struct {
 	// StallUntil (simulated time): until then the broker does not look at what
 	// this client sends (a busy broker, a congested path): PUBs and PINGs wait.
 	StallUntil time.Duration
+	// ReadStallUntil (simulated time): until then the broker does not even READ this client's socket: the
+	// client's writes block (net.Pipe has no buffer; a real socket would after its buffers filled up)
+	ReadStallUntil time.Duration
+	gate           chan struct{}
+}
+
+// brokerSide wraps the broker's end of a connection so that reads can be held back.
+type brokerSide struct {
+	net.Conn
+	c *BrokerConn
+}
+
+func (g *brokerSide) Read(p []byte) (int, error) {
+	c := g.c
+	for {
+		c.b.mu.Lock()
+		d := c.ReadStallUntil - c.b.s.Now()
+		c.b.mu.Unlock()
+		if d <= 0 {
+			break
+		}
+		c.b.s.AddEvent(fmt.Sprintf("nats:c%02d:readgate", c.ID), d, func() {
+			select {
+			case c.gate <- struct{}{}:
+			default:
+			}
+		})
+		<-c.gate
+	}
+	return g.Conn.Read(p)
+}
+
+// StallReads makes the broker stop reading this client's socket for d from now.
+func (c *BrokerConn) StallReads(d time.Duration) {
+	c.b.mu.Lock()
+	if u := c.b.s.Now() + d; u > c.ReadStallUntil {
+		c.ReadStallUntil = u
+	}
+	c.b.mu.Unlock()
 }
 
 // StallInbound makes the broker ignore this client's input for d from now.
@@ -159,7 +198,8 @@ func (d *brokerDialer) Dial(network, address string) (net.Conn, error) {
 	cli, srv := net.Pipe()
 	b := d.b
 	b.mu.Lock()
-	c := &BrokerConn{ID: len(b.conns) + 1, b: b, srv: srv, wch: make(chan []byte, 4096), Name: d.name}
+	c := &BrokerConn{ID: len(b.conns) + 1, b: b, wch: make(chan []byte, 4096), Name: d.name, gate: make(chan struct{}, 1)}
+	c.srv = &brokerSide{Conn: srv, c: c}
 	b.conns = append(b.conns, c)
 	b.mu.Unlock()
 	go c.writer()
